@@ -363,7 +363,13 @@ fn gen_case(rng: &mut Rng, avoid_scope_names: bool) -> Case {
     let mut n_cnd = 0;
     let n_blocks = 1 + rng.usize(5);
     for b in 0..n_blocks {
-        match rng.below(6) {
+        match rng.below(7) {
+            6 => {
+                // between a scope push and its pop (the command's clean-up must not depend on the scope stack)
+                main.push(Stmt::Raw(format!("scope_push_stack{}", if rng.chance(2, 3) { " --copy arr arr2 mp st v0 v1" } else { "" })));
+                main.extend(burst(rng, avoid_scope_names));
+                main.push(Stmt::Raw("scope_pop_stack".to_string()));
+            }
             0 | 1 | 2 => main.extend(burst(rng, avoid_scope_names)),
             3 => main.push(Stmt::ForIn { var: "i0".to_string(), arr: ArrRef::Inline(vec!["1".to_string(), "2".to_string()]), body: burst(rng, avoid_scope_names), sp: rng.next_u64() as u32, id: b as u32 }),
             4 => {
@@ -379,7 +385,8 @@ fn gen_case(rng: &mut Rng, avoid_scope_names: bool) -> Case {
             }
         }
     }
-    let fns = if use_fn { vec![FnDef { name: "f0".to_string(), scoped: false, body: burst(rng, avoid_scope_names), sp: rng.next_u64() as u32 }] } else { vec![] };
+    // (a scoped function: the body runs on a pushed scope)
+    let fns = if use_fn { vec![FnDef { name: "f0".to_string(), scoped: rng.chance(1, 2), body: burst(rng, avoid_scope_names), sp: rng.next_u64() as u32 }] } else { vec![] };
     let cnd = (0..n_cnd).map(|_| (0..1 + rng.usize(2)).map(|_| true).collect()).collect();
     let nested = if rng.chance(2, 3) { (0..1 + rng.usize(3)).map(|_| (rng.below(8) as u32, rng.below(14) as u32)).collect() } else { vec![] };
     Case { entropy: rng.next_u64(), program: Program { fns, arrays: vec![], main, cnd, fail_leaf: vec![], forever: false, crlf: false }, nested }
